@@ -852,9 +852,9 @@ def rule_csv_file_modes(ctx: Ctx) -> RuleResult:
                 "CS-5", "%s::dump_to_file{truncate}" % CSV, md.where(fd),
                 "the file is opened in mode %r: a file that already exists keeps its old content (append / update), so it does not hold exactly "
                 "the dumped rows" % eff, trace_of(p)))
-            r.ob(_is_param(kw.get("file"), "filename"), lambda kw=kw: Finding(
+            r.ob(_is_param(kw.get("<0>"), "filename"), lambda kw=kw: Finding(
                 "CS-5", "%s::dump_to_file{target}" % CSV, md.where(fd), "file.write must receive the filename of dump_to_file; it receives file=%s" % (
-                    show(kw["file"]) if kw.get("file") else None)))
+                    show(kw["<0>"]) if kw.get("<0>") else None)))
         if not got:
             raise AnalysisError("csv.dump_to_file: no pipeline found for encoding %s" % enc)
     # the reader: the text that reaches line.unframe is decoded by one decoder for the whole file -- the file object opened in text
@@ -896,7 +896,7 @@ def rule_csv_file_modes(ctx: Ctx) -> RuleResult:
             "the reader must decode with the encoding given to load_from_file; the decoder receives %s (the platform default when nothing is given), so text "
             "written by dump_to_file(encoding=...) is read back with another encoding" % (show(encarg) if encarg is not None else "nothing"), trace_of(p)))
         pos0 = [a for a in src[2] if a[0] != "kw"][:1]
-        r.ob(_is_param(kw.get("file"), "filename") or (pos0 and _is_param(pos0[0], "filename")), lambda p=p: Finding(
+        r.ob(_is_param(kw.get("<0>"), "filename") or (pos0 and _is_param(pos0[0], "filename")), lambda p=p: Finding(
             "CS-5", "%s::load_from_file{source}" % CSV, ml.where(fl), "file.read must receive the filename of load_from_file", trace_of(p)))
         r.groups.add(("load_from_file", binary))
         ok = not per_chunk and (incremental if binary else not incremental)
@@ -1080,6 +1080,12 @@ def _table_of(t, ast_tables):
     return None
 
 
+def _codec_args_ok(kw):
+    """encode / decode receive the encoding, and at most the error scheme left at its default 'strict'"""
+    names = {k for k in kw if not k.startswith("<")}
+    return "encoding" in names and names <= {"encoding", "errors"} and kw.get("errors", ("const", "strict")) == ("const", "strict")
+
+
 def _kwargs_of(t):
     """{parameter name: argument term} of a call term; positional arguments of a repository function are named through
     its signature, so that f(x, 'rb') and f(x, mode='rb') read the same"""
@@ -1091,6 +1097,11 @@ def _kwargs_of(t):
         for k, a in enumerate([a for a in t[2] if a[0] not in ("kw", "star")]):
             if k < len(names) and names[k] not in out:
                 out[names[k]] = a
+        # the same by position ("<0>" is whatever the callee calls its first parameter: a consistent rename of that parameter in the
+        # definition and at its call sites reads the same)
+        for k, nme in enumerate(names):
+            if nme in out:
+                out["<%d>" % k] = out[nme]
     return out
 
 
@@ -1189,12 +1200,12 @@ def rule_ag7(ctx: Ctx) -> RuleResult:
             if _stage_id(t) == "rxsci.io.file.write":
                 kw = _kwargs_of(t)
                 r.ob(kw.get("mode") == ("const", "wb"), lambda: Finding("AG-7", "%s{write-mode}" % JSON, md.where(fd), "the file must be written in mode 'wb'"))
-                r.ob(_is_param(kw.get("open_obj"), "open_obj") and _is_param(kw.get("file"), "filename"), lambda kw=kw: Finding(
+                r.ob(_is_param(kw.get("open_obj"), "open_obj") and _is_param(kw.get("<0>"), "filename"), lambda kw=kw: Finding(
                     "AG-7", "%s{write-target}" % JSON, md.where(fd), "file.write must receive the filename and the open_obj function of dump_to_file; it receives file=%s, open_obj=%s" % (
-                        show(kw["file"]) if kw.get("file") else None, show(kw["open_obj"]) if kw.get("open_obj") else "(default open)")))
+                        show(kw["<0>"]) if kw.get("<0>") else None, show(kw["open_obj"]) if kw.get("open_obj") else "(default open)")))
             if _stage_id(t) == "rxsci.data.codec.encode":
                 kw = _kwargs_of(t)
-                r.ob(set(kw) == {"encoding"} and kw["encoding"][0] in ("param", "arg") and kw["encoding"][1] == "encoding", lambda: Finding(
+                r.ob(_codec_args_ok(kw) and kw["encoding"][0] in ("param", "arg") and kw["encoding"][1] == "encoding", lambda: Finding(
                     "AG-7", "%s{encode-args}" % JSON, md.where(fd), "encode must receive the encoding parameter only (incremental by default)"))
             if _stage_id(t) == "rxsci.container.json.dump":
                 kw = _kwargs_of(t)
@@ -1230,13 +1241,13 @@ def rule_ag7(ctx: Ctx) -> RuleResult:
                 rtable = _table_of(t, rtabs)
         kw = _kwargs_of(src)
         r.ob(kw.get("mode") == ("const", "rb"), lambda: Finding("AG-7", "%s{read-mode}" % JSON, ml.where(fl), "the file must be read in mode 'rb'"))
-        r.ob(_is_param(kw.get("open_obj"), "open_obj") and _is_param(kw.get("file"), "filename"), lambda kw=kw: Finding(
+        r.ob(_is_param(kw.get("open_obj"), "open_obj") and _is_param(kw.get("<0>"), "filename"), lambda kw=kw: Finding(
             "AG-7", "%s{read-source}" % JSON, ml.where(fl), "file.read must receive the filename and the open_obj function of load_from_file; it receives file=%s, open_obj=%s" % (
-                show(kw["file"]) if kw.get("file") else None, show(kw["open_obj"]) if kw.get("open_obj") else "(default open)")))
+                show(kw["<0>"]) if kw.get("<0>") else None, show(kw["open_obj"]) if kw.get("open_obj") else "(default open)")))
         for t in stages:
             if _stage_id(t) == "rxsci.data.codec.decode":
                 kw = _kwargs_of(t)
-                r.ob(set(kw) == {"encoding"} and kw["encoding"][0] in ("param", "arg") and kw["encoding"][1] == "encoding", lambda: Finding(
+                r.ob(_codec_args_ok(kw) and kw["encoding"][0] in ("param", "arg") and kw["encoding"][1] == "encoding", lambda: Finding(
                     "AG-7", "%s{decode-args}" % JSON, ml.where(fl), "decode must receive the encoding parameter only (incremental by default)"))
     # ---- tables ----------------------------------------------------------------------------
     wt, rt = wtable, rtable
